@@ -1,6 +1,7 @@
 package checks
 
 import (
+	"context"
 	"fmt"
 	"os"
 	"sort"
@@ -34,6 +35,9 @@ type sessOpts struct {
 	PastEnd bool
 	// FilterReserved: the resource drops reserved flag indices from results (C06 two-run oracle)
 	FilterReserved bool
+	// TerminateAfterFailure: when a request fails, the client sets TERMINATE on the live state of the long-lived
+	// driver and sends two more inputs, which must be blocked (model-free invariant)
+	TerminateAfterFailure bool
 	// Turn, if set, makes every request wait for this session's turn: two monitored sessions of one application
 	// are served request by request in alternation (what a server with several clients does)
 	Turn *turnstile
@@ -109,9 +113,13 @@ func monitorSession(c *vk.Ctx, a *app.App, cfg app.Config, hist []string, o sess
 	var d app.Driver
 	var pr *app.PerRequest
 	var b *app.Backend
+	var llive *app.LongLived
 	if o.Driver == "long" || o.Driver == "resume" {
 		ll := app.NewLongLived(a, cfg)
 		ll.Res.FilterReserved = o.FilterReserved
+		if o.Driver == "long" {
+			llive = ll
+		}
 		if o.Driver == "resume" {
 			// in-memory resume: the session lives in the client's state and cache objects, a new engine is built over
 			// them for every request
@@ -207,6 +215,34 @@ func monitorSession(c *vk.Ctx, a *app.App, cfg app.Config, hist []string, o sess
 		}
 		if ob.ExecErr != "" {
 			st.Errors++
+			if o.TerminateAfterFailure && llive != nil {
+				// The state after a failed request is unspecified - but one thing holds in any state: once TERMINATE is
+				// set (here by the client, on the live state object, as an operator ending a broken session would),
+				// the same engine must not execute, call out or move until the flag is cleared.
+				// Every other time the operator first rewinds the session (Engine.Reset), which leaves code pending.
+				if step%2 == 0 {
+					vk.Guard(func() { llive.En.Reset(context.Background(), true) })
+					llive.Res.Take()
+				}
+				if pv, _ := vk.Guard(func() { llive.St.SetFlag(state.FLAG_TERMINATE) }); pv != nil {
+					break
+				}
+				before := app.SnapState(llive.St)
+				for k, in2 := range []string{"1", "0"} { // not the empty input: with ResetOnEmptyInput that is a new dial-in, which lifts TERMINATE
+					ob2 := d.Request([]byte(in2))
+					st.Requests++
+					st.Blocked++
+					st.Transcript = append(st.Transcript, "(TERMINATE set by the client after the failed request) "+ob2.Brief())
+					if ob2.Panic != "" {
+						return &disc{Kind: "panic", Step: step, Msg: "panic: " + ob2.Panic, Sub: ob2.PanicSig}, st
+					}
+					after := app.SnapState(llive.St)
+					if len(ob2.Events) > 0 || ob2.Out != "" || strings.Join(after.ExecPath, "/") != strings.Join(before.ExecPath, "/") {
+						return &disc{Kind: "calls", Step: step, Sub: "active-while-terminated-after-failure",
+							Msg: fmt.Sprintf("request %d after a failed request, TERMINATE set by the client on the live state: input %s made callbacks %v, wrote %q, position %v -> %v", k+1, printable(in2), ob2.Events, ob2.Out, before.ExecPath, after.ExecPath)}, st
+					}
+				}
+			}
 			break // state after a failed request is unspecified
 		}
 		// language carried by each exec-phase callback
@@ -424,6 +460,8 @@ type modelCheck struct {
 	Hist func(r *vk.RNG, a *app.App) []string
 	// Config tweak
 	Config func(r *vk.RNG, a *app.App, cfg *app.Config)
+	// TerminateAfterFailure: see sessOpts
+	TerminateAfterFailure bool
 }
 
 func (mc *modelCheck) run(c *vk.Ctx) {
@@ -518,14 +556,14 @@ func (mc *modelCheck) run(c *vk.Ctx) {
 					}()
 					d2, _ = monitorSession(c, a2, cfg2, hist2, sessOpts{Driver: drv, PastEnd: mc.PastEnd && drv != "long", Turn: t, Side: 1})
 				}()
-				d, st = monitorSession(c, a, cfg, hist, sessOpts{Driver: drv, PastEnd: mc.PastEnd && drv != "long", Turn: t, Side: 0})
+				d, st = monitorSession(c, a, cfg, hist, sessOpts{Driver: drv, PastEnd: mc.PastEnd && drv != "long", Turn: t, Side: 0, TerminateAfterFailure: mc.TerminateAfterFailure})
 				wg.Wait()
 				if d == nil && d2 != nil {
 					d = d2
 					d.Msg = "(second session, served in alternation) " + d.Msg
 				}
 			} else {
-				d, st = monitorSession(c, a, cfg, hist, sessOpts{Driver: drv, PastEnd: mc.PastEnd && drv != "long"})
+				d, st = monitorSession(c, a, cfg, hist, sessOpts{Driver: drv, PastEnd: mc.PastEnd && drv != "long", TerminateAfterFailure: mc.TerminateAfterFailure})
 			}
 			c.Eval(vk.Hash64(key, drv), mc.NonTrivial == nil || mc.NonTrivial(st))
 			c.Count("requests", int64(st.Requests))
